@@ -182,7 +182,9 @@ func (mc *XMCache) newXModelCacheIterator(bucket string, startKey []byte, endKey
 	// 意味着如果一个key在三个迭代器里面同时出现，优先级高的会覆盖优先级底的
 	multiIter := newMultiIterator(inputIter, backendIter)
 	multiIter = newMultiIterator(outputIter, multiIter)
-	return newContractIterator(multiIter), nil
+	// a key deleted in this execution shadows the lower layers with its delete
+	// marker; the marker itself must not be yielded
+	return newContractIterator(newStripDelMarkIterator(multiIter)), nil
 }
 
 // GetRWSets get read/write sets
